@@ -14,7 +14,7 @@ Inductive fkind :=
 | FWalkGenuine | FWalkMissed | FWalkPriority | FGreedy
 | FSpecInsert | FSpecDelete | FSpecConstraint
 | FNoop | FRoundtrip | FInterfere | FNotRouted | FSame | FDumpOf
-| FBuiltin | FOci | FOciModel | FOciName | FUnknownRouter | FArcs.
+| FBuiltin | FOci | FOciModel | FOciName | FUnknownRouter | FArcs | FSplitChar.
 
 Definition finding := (fkind * list bytes)%type.
 
@@ -345,12 +345,18 @@ Definition registered_b (cons : list (bytes * bytes)) (c : bytes) : bool :=
   existsb (fun nt : bytes * bytes => beqb (fst nt) c) cons.
 
 (* checks on a post-state dump that do not depend on the operation *)
+(* C15: printed label paths (Display decodes every literal key on its own) that differ from the stored bytes *)
+Definition split_char_paths (dump : node) : list bytes :=
+  map fst (filter (fun pr : bytes * bytes => negb (beqb (fst pr) (snd pr)))
+                  (combine (map fst (spell node_label dump [])) (map fst (spell raw_label dump [])))).
+
 Definition check_dump (lv : live) (dump : node) (disp : bytes) : list finding :=
   fl (inv_b dump) FInv []
   ++ fl (wf dump && tidy dump) FInv []
   ++ fl (canonical_b dump) FCanonical []
   ++ fl (routes_same (routes_of dump) (live_routes lv)) FRoutes []
-  ++ fl (beqb (display dump) disp) FDisplay [display dump; disp].
+  ++ fl (beqb (display dump) disp) FDisplay [display dump; disp]
+  ++ match split_char_paths dump with [] => [] | x :: _ => [(FSplitChar, [x])] end.
 
 Definition single_group_free (lv : live) : option route :=
   match lv with
